@@ -275,7 +275,55 @@ func checkIndexAllocation(c *core.Ctx) {
 	if fn == nil || gci == nil || pci == nil {
 		return
 	}
-	// every store to peerPoolItem.Index takes its value from the stored PEER_INDEX record or from getCandidateIndex()
+	// every store to peerPoolItem.Index takes its value from the stored PEER_INDEX record or from getCandidateIndex():
+	// the origins of the stored value are followed through phis and through module helpers that hand the index back
+	type origin struct {
+		v    ssa.Value
+		host *ssa.Function
+	}
+	var origins func(v ssa.Value, host *ssa.Function, depth int) []origin
+	origins = func(v ssa.Value, host *ssa.Function, depth int) []origin {
+		v = ir.Strip(v)
+		if depth > 4 {
+			return []origin{{v, host}}
+		}
+		if phi, ok := v.(*ssa.Phi); ok {
+			var out []origin
+			for _, e := range phi.Edges {
+				if e == v {
+					continue
+				}
+				out = append(out, origins(e, host, depth+1)...)
+			}
+			return out
+		}
+		if cl, idx := ir.CallOf(v); cl != nil && !isCallTo(v, gci) {
+			if o := ir.CalleeObj(cl); o != nil && o.Name() == "GetBytesUint32" {
+				return []origin{{v, host}}
+			}
+			h := cl.Common().StaticCallee()
+			if h != nil && ir.InModule(h) && len(h.Blocks) > 0 && h.Pkg == fn.Pkg {
+				if idx < 0 {
+					idx = 0
+				}
+				var out []origin
+				for _, hb := range h.Blocks {
+					ret, isRet := hb.Instrs[len(hb.Instrs)-1].(*ssa.Return)
+					if !isRet || idx >= len(ret.Results) {
+						continue
+					}
+					if _, isK := ret.Results[idx].(*ssa.Const); isK && len(ret.Results) > 1 {
+						continue // the zero handed back beside an error
+					}
+					out = append(out, origins(ret.Results[idx], h, depth+1)...)
+				}
+				if len(out) > 0 {
+					return out
+				}
+			}
+		}
+		return []origin{{v, host}}
+	}
 	nStores := 0
 	for _, b := range fn.Blocks {
 		for _, in := range b.Instrs {
@@ -287,36 +335,47 @@ func checkIndexAllocation(c *core.Ctx) {
 			if !isFA || fieldNameOf(fa) != "Index" {
 				continue
 			}
-			nStores++
-			fromCounter := isCallTo(st.Val, gci)
-			fromRecord := false
-			if cl, _ := ir.CallOf(st.Val); cl != nil && ir.CalleeObj(cl) != nil && ir.CalleeObj(cl).Name() == "GetBytesUint32" {
-				fromRecord = true
-			}
-			c.Decide(fromCounter || fromRecord, "C34.distinct-indices", fn, "pool item index comes from the key's stored PEER_INDEX record or from the candidate counter", c.P.Rel(st.Pos()), "")
-			if fromCounter {
-				// on this path putCandidateIndex(counter+1) follows before success
-				okBump := false
-				for _, p := range ir.CallsTo(fn, pci) {
-					if b, ok := ir.Strip(p.Common().Args[1]).(*ssa.BinOp); ok && b.Op == token.ADD && isCallTo(b.X, gci) {
-						if k, okk := ir.ConstInt(b.Y); okk && k == 1 {
-							okBump = true
-							r := ir.NewReach(fn)
-							r.Barrier[p] = true
-							r.Run(st)
-							for _, s := range ir.SuccessSinks(fn) {
-								if r.SinkReachable(s) {
-									okBump = false
+			for _, og := range origins(st.Val, fn, 0) {
+				nStores++
+				fromCounter := isCallTo(og.v, gci)
+				fromRecord := false
+				if cl, _ := ir.CallOf(og.v); cl != nil && ir.CalleeObj(cl) != nil && ir.CalleeObj(cl).Name() == "GetBytesUint32" {
+					fromRecord = true
+				}
+				if og.host != fn {
+					c.Attribute(og.host, fn)
+				}
+				c.Decide(fromCounter || fromRecord, "C34.distinct-indices", fn, "pool item index comes from the key's stored PEER_INDEX record or from the candidate counter", c.P.Rel(st.Pos()), short(og.v.String()))
+				if fromCounter {
+					// on this path putCandidateIndex(counter+1) follows before success (in the function that read the counter)
+					host := og.host
+					gcall, _ := ir.CallOf(og.v)
+					okBump := false
+					for _, p := range ir.CallsTo(host, pci) {
+						if b, ok := ir.Strip(p.Common().Args[1]).(*ssa.BinOp); ok && b.Op == token.ADD && isCallTo(b.X, gci) {
+							if k, okk := ir.ConstInt(b.Y); okk && k == 1 {
+								okBump = true
+								r := ir.NewReach(host)
+								r.Barrier[p] = true
+								var start ssa.Instruction = st
+								if host != fn {
+									start = gcall
+								}
+								r.Run(start)
+								for _, s := range ir.SuccessSinks(host) {
+									if r.SinkReachable(s) {
+										okBump = false
+									}
 								}
 							}
 						}
 					}
+					c.Decide(okBump, "C34.distinct-indices", fn, "allocation path stores candidateIndex+1 back before any success return", c.P.Rel(st.Pos()), "")
 				}
-				c.Decide(okBump, "C34.distinct-indices", fn, "allocation path stores candidateIndex+1 back before any success return", c.P.Rel(st.Pos()), "")
 			}
 		}
 	}
-	c.Floor("stores to peerPoolItem.Index in ApproveCandidate", nStores, 2)
+	c.Floor("origins of peerPoolItem.Index in ApproveCandidate", nStores, 2)
 	// reuse path only when a PEER_INDEX record exists: putCandidateIndex not reachable on that path (no bump on reuse)
 	// InitConfig seeds the counter with max(Index)+1
 	ic := c.Fn(pkNM, "InitConfig")
